@@ -151,11 +151,17 @@ func (n *verifNet) drain(canon bool) []verifSent {
 	return l
 }
 
-// verifNewCore creates a real Core on dir. The periodic cron jobs keep running (10 s / 10 min
-// periods); harnesses call the cron bodies directly (c.checkPendingBundles, c.store.DeleteExpired).
+// verifNewCore creates a real Core on dir. The periodic cron jobs of the Core (pending_bundles every
+// 10 s, clean_store every 10 min) are unregistered so that they never fire inside a scripted
+// scenario; harnesses call the cron bodies directly (c.checkPendingBundles, c.store.DeleteExpired).
 func verifNewCore(dir string, nodeId string, conf RoutingConf) (*Core, error) {
 	log.SetLevel(log.PanicLevel)
-	return NewCore(dir, bpv7.MustNewEndpointID(nodeId), false, conf, nil)
+	c, err := NewCore(dir, bpv7.MustNewEndpointID(nodeId), false, conf, nil)
+	if err == nil {
+		c.cron.Unregister("pending_bundles")
+		c.cron.Unregister("clean_store")
+	}
+	return c, err
 }
 
 // verifPeerUp registers the mock with the real CLA manager and performs what Core.handler does on a
